@@ -58,8 +58,12 @@ func oracleChangeSets() Oracle {
 			return viol("changeset", "GetImmutable(%d): %v", m.Latest, err)
 		}
 		extracted := map[int64][]*iavl.KVPair{}
-		for start := int64(0); start <= m.Latest+1; start++ {
-			for end := start; end <= m.Latest+2; end++ {
+		cands := append(m.VersionCandidates(0), m.Latest+2)
+		for _, start := range cands[:len(cands)-1] {
+			for _, end := range cands {
+				if end < start {
+					continue
+				}
 				var got []int64
 				seen := map[int64][]csEntry{}
 				err := it.TraverseStateChanges(start, end, func(v int64, cs *iavl.ChangeSet) error {
